@@ -564,10 +564,10 @@ func (w *tWriter) empty() bool {
 // Closes the storage.Writer.
 func (w *tWriter) close() error {
 	if w.w != nil {
-		if err := w.w.Close(); err != nil {
-			return err
-		}
+		// The file is unusable after a failed Close as well.
+		err := w.w.Close()
 		w.w = nil
+		return err
 	}
 	return nil
 }
